@@ -153,6 +153,11 @@ class CommonReadHandler(ReadHandler):
                 ret = func(module)
                 if ret is not None:
                     raise ProgrammingError('a method wrapped with CommonReadHandler must not return any value')
+                readerror = module.parameters[pname].readerror
+                if readerror:
+                    # func tried to assign a value not accepted by the datatype:
+                    # do not return the outdated value as if it were read just now
+                    raise readerror
                 return getattr(module, pname)
 
         method = wraps(self.func)(method)
